@@ -18,6 +18,34 @@ def programs(ck):
             yield f"inj#{i}:{inj[1]}", inj[0], feats + ["injected:" + inj[1]]
     for name, src in inject.CURATED:
         yield "curated:" + name, src, ["curated"]
+    # unsupported expression kinds at positions where a lowered construct surrounds them: must be rejected, or compile
+    for i, src in enumerate([
+            "def g():\n    for i in [1, 2]:\n        yield from [i]\nprint(list(g()))\n",
+            "def g():\n    n = 2\n    while n:\n        n -= 1\n        yield from (n,)\nprint(list(g()))\n",
+            "def g(l):\n    if l:\n        yield from l\n    else:\n        yield 0\nprint(list(g([1])))\n",
+            "def g():\n    for i in [1, 2]:\n        x = yield i\n        if x:\n            break\nprint(list(g()))\n",
+            "def g():\n    while True:\n        v = (yield)\n        if v is None:\n            return\nprint(list(g()))\n",
+            "def g():\n    class K:\n        a = 1\n    yield from [K.a]\nprint(list(g()))\n",
+            "f = lambda: (yield)\nprint(type(f()).__name__)\n",
+            "def g():\n    for i in [1]:\n        l = [i, (yield from [i])]\n    return l\nprint(list(g()))\n",
+            "async def h():\n    for i in [1]:\n        await i\n",
+            "def g():\n    d = {}\n    d['k'] = yield from [1]\n    d['k'] += yield 2\nprint(list(g()))\n"]):
+        yield f"unsupported-in-construct#{i}", src, ["curated"]
+    # literals with edge code points (line separators of every kind, quotes, braces, the whole surrogate range's
+    # boundaries, plane boundaries) as str constants, f-string parts, format specs, dict keys, defaults
+    import ast as _ast
+    edge = [0, 9, 10, 11, 12, 13, 0x1c, 0x1d, 0x1e, 0x1f, 0x7f, 0x85, 0xa0, 0xff, 0x100, 0x2028, 0x2029, 0xd7ff, 0xd800, 0xd801, 0xdbff, 0xdc00, 0xdffe, 0xdfff,
+            0xe000, 0xfffe, 0xffff, 0x10000, 0x10ffff, 39, 34, 92, 123, 125]
+    for cp in edge:
+        esc = ("\\u%04x" % cp) if cp < 0x10000 else ("\\U%08x" % cp)
+        spec = "x" if cp in (123, 125) else esc
+        src = (f"s = 'a{esc}b'\nt = f'{esc}{{s!r:{spec}>9}}{esc}{esc}'\nd = {{'{esc}': '{esc}{esc}'}}\n"
+               f"def g(a='{esc}', *, k=f'{{s}}{esc}'):\n    return a + k\nprint(ascii((s, t, d, g())))\n")
+        try:
+            compile(src, "<lit>", "exec")
+        except (SyntaxError, ValueError):
+            continue
+        yield "literal:U+%04X" % cp, src, ["literal-edge"]
     # every statement form at every kind of position (harness/forms.py)
     import forms
     for name, src in forms.programs():
@@ -98,7 +126,7 @@ def main(argv):
             if v.startswith("fail") and not compiles:
                 ck.count("not_demanded:source_does_not_compile")
             elif v.startswith("fail"):
-                kf = inject.match_known(known, src, v, "C02")
+                kf = inject.match_known(known, src, v, "C02", cfg)
                 if kf:
                     ck.count("attributed_to_" + kf)
                 else:
